@@ -26,7 +26,8 @@ def main():
     mod = importlib.import_module(f"props.{pid.lower()}")
     t0 = time.time()
     if a.replay:
-        case = json.load(open(a.replay))
+        with open(a.replay, encoding="utf-8") as fh:
+            case = json.load(fh)
         if case.get("kind") != "failing-input":
             print(json.dumps(case, indent=1)[:4000])
             print("replay: this file names an obligation that no longer checks; re-run the check to re-evaluate it")
@@ -40,6 +41,16 @@ def main():
     st = common.lean_build()
     common.audit_axioms(st, pid)
     res = mod.run(tier, seed)
+    # minimised past failures run on every check (corpus/<id>/*.json)
+    cdir = os.path.join(common.ROOT, "corpus", pid)
+    if os.path.isdir(cdir) and hasattr(mod, "replay"):
+        for fn in sorted(os.listdir(cdir)):
+            with open(os.path.join(cdir, fn), encoding="utf-8") as fh:
+                case = json.load(fh)
+            out = mod.replay(case)
+            res.dist["corpus cases replayed"] += 1
+            if out:
+                res.failures.append(out)
     if a.search:
         res.merge(mod.search(tier, seed))
     return common.finish(
